@@ -1491,6 +1491,11 @@ class RTCSctpTransport(AsyncIOEventEmitter):
             for stream_id in list(self._data_channels.keys()):
                 self._data_channel_closed(stream_id)
 
+            # close data channels which were never assigned a stream
+            for channel, _, _ in self._data_channel_queue:
+                channel._setReadyState("closed")
+            self._data_channel_queue.clear()
+
             # no more events will be emitted, so remove all event listeners
             # to facilitate garbage collection.
             self.remove_all_listeners()
